@@ -44,6 +44,9 @@ ASSUMPTIONS = ['Inspect is not modelled (I/O)', 'T-expressions inside specs carr
 
 
 def generate(rng, tier, scale, **focus):
+    if not focus:
+        # enumerated: the boundary values of Coalesce's skip / skip_exc / default arguments
+        yield from Gen.coalesce_boundaries()
     n = (1200 if tier == 'quick' else 30000) * scale
     for i in range(n):
         g = Gen(rng, {'extra': ['ref', 'nestchain']})
